@@ -221,6 +221,8 @@ func (u *PtrUnifier) Match(exp, obs *D) error {
 
 func mintD(t *Type, id int, src string) *D {
 	switch t.Kind {
+	case KRaw:
+		return &D{K: 'L', ID: 0}
 	case KLeaf, KInt, KBasic:
 		return &D{K: 'L', ID: id}
 	case KIface:
@@ -244,7 +246,7 @@ func mintD(t *Type, id int, src string) *D {
 
 func zeroD(t *Type) *D {
 	switch t.Kind {
-	case KLeaf, KInt, KBasic:
+	case KLeaf, KInt, KBasic, KRaw:
 		return &D{K: 'L', ID: 0}
 	case KIface, KPtr:
 		return &D{K: 'N'}
